@@ -220,6 +220,42 @@ def first_diff(pred, real):
     return None
 
 
+def apalache_inductive(env):
+    """Inductive check (Apalache) of the core of the sub-waker protocol, specs/apalache/ReadinessProto.tla:
+    Init => IndInv and IndInv /\\ Next => IndInv', for N <= 5 children and both loop shapes: the no-lost-wake-up
+    invariant then holds after any number of polls and wake-ups (the TLC runs bound both).  Spec-only, cached."""
+    SPECS = env["SPECS"]
+    d = os.path.join(SPECS, "apalache")
+    root = os.path.dirname(SPECS)
+    cdir = os.path.join(root, "work", "l2cache")
+    os.makedirs(cdir, exist_ok=True)
+    h = hashlib.sha1(open(os.path.join(d, "ReadinessProto.tla"), "rb").read()).hexdigest()[:16]
+    cpath = os.path.join(cdir, "apalache_ReadinessProto_%s.json" % h)
+    if os.path.exists(cpath) and not os.environ.get("VERIF_NO_L2_CACHE"):
+        r = json.load(open(cpath))
+        r["reused_from_cache"] = True
+        return r
+    out_dir = os.path.join(env["WORK"], "apalache_out_%d" % os.getpid())
+    res = dict(module="ReadinessProto", kind="inductive invariant (Apalache)", obligations=[])
+    t0 = time.time()
+    ok = True
+    for name, args in (("Init => IndInv", ["--init=Init", "--length=0"]), ("IndInv /\\ Next => IndInv'", ["--init=IndInit", "--length=1"])):
+        p = subprocess.run(["apalache-mc", "check", "--cinit=CInit", "--inv=IndInv", "--out-dir=" + out_dir] + args + ["ReadinessProto.tla"],
+                           cwd=d, capture_output=True, text=True, timeout=1800)
+        good = "The outcome is: NoError" in p.stdout
+        res["obligations"].append(dict(obligation=name, discharged=good))
+        ok = ok and good
+        if not good:
+            res["output_tail"] = p.stdout[-1500:]
+    subprocess.run(["rm", "-rf", out_dir, os.path.join(d, "_apalache-out")])
+    res.update(ok=ok, secs=round(time.time() - t0, 1), reused_from_cache=False,
+               statement="NoLostWake: a set readiness bit of a child the scan has passed (or any set bit while parked) implies that the "
+                         "waker of the most recent poll has been invoked; N <= 5, array-style and tuple-style loops, unbounded polls / wake-ups")
+    if ok:
+        json.dump(res, open(cpath, "w"))
+    return res
+
+
 def prewarm(env, tier="quick"):
     """Model-check / export every L2 module once (spec-only work, shared by all checks through the cache)."""
     SPECS = env["SPECS"]
@@ -236,6 +272,10 @@ def prewarm(env, tier="quick"):
         return kind, mod, r["ok"], r["states"], r["secs"], cached, r.get("out_tail", "")
 
     bad = []
+    ind = apalache_inductive(env)
+    env["log"]("  Apalache ReadinessProto inductive invariant: %s (%.1fs)" % ("ok" if ind["ok"] else "ERROR", ind["secs"]))
+    if not ind["ok"]:
+        bad.append(("ReadinessProto", "inductive", ind.get("output_tail", "")))
     with cf.ThreadPoolExecutor(max_workers=4) as ex:
         for kind, mod, ok, states, secs, cached, tail in ex.map(one, jobs):
             env["log"]("  L2 %-9s %-5s states=%-8d %5.1fs %s%s" % (mod, kind, states, secs, "ok" if ok else "ERROR", " (cached)" if cached else ""))
@@ -249,6 +289,11 @@ def run_for_property(prop, tier, seed, plan, env):
     tlc, fcv, WORK, SPECS, log, ToolError = env["tlc"], env["fcv"], env["WORK"], env["SPECS"], env["log"], env["ToolError"]
     tracemon, split_runs = env["tracemon"], env["split_runs"]
     res = dict(states=0, transitions=0, models=[], mon_results=[], violations=[], replayed=0, conformance={}, drift=[], exhaustive=False)
+    if prop == "C01":
+        ind = apalache_inductive(env)
+        res["models"].append(ind)
+        if not ind["ok"]:
+            raise ToolError("Apalache rejects the inductive invariant of ReadinessProto.tla (a defect of the specification): %s" % ind.get("output_tail", "")[-800:])
     modules = []
     for f in plan["fams"]:
         mod = FAMILY_MODULE.get(f)
